@@ -1,7 +1,539 @@
-//! C02 — not built yet (stub).
+//! C02 — Encode/decode round trip preserves every message.
+//!
+//! (A) model message -> hickory `Message` assembled through public constructors -> `to_vec` ->
+//!     `from_vec` must deep-equal the assembled message, and the emitted packet, cut into RRs by
+//!     the harness's own splitter, must carry exactly the model's owner/type/class/TTL/RDATA.
+//! (B) model message -> the harness's own encoder (no / standard / everywhere compression) ->
+//!     `from_vec` -> `to_vec` -> `from_vec`: deep-equal, and RDATA preserved relative to the model.
+//! (C) the same with byte-level mutations: whatever the decoder accepts must re-encode to
+//!     something that decodes to the same message, with RDATA of non-compressible types
+//!     byte-identical.
 
-use crate::core::Check;
+use std::collections::BTreeSet;
+
+use hickory_proto::op::Message;
+use proptest::prelude::*;
+use serde::{Deserialize, Serialize};
+
+use crate::checks::codec_util::{self as cu, Mutation};
+use crate::core::{prop, CaseResult, Check, Fail, Rec};
+use crate::gen::msg;
+use crate::refm::wire_ref::{self as w, Compress, MMessage, MRData, MRecord};
+
+fn short(e: &str) -> String {
+    let mut s: String = e.chars().take(36).map(|c| if c.is_ascii_digit() { '#' } else { c }).collect();
+    s = s.replace("##", "#").replace("##", "#");
+    s
+}
+
+/// the model's records in hickory's emission order: answers, authorities, additionals (OPT and
+/// TSIG are compared separately)
+fn model_rrs(m: &MMessage) -> Vec<(u8, &MRecord)> {
+    m.answers.iter().map(|r| (1u8, r)).chain(m.authorities.iter().map(|r| (2u8, r))).chain(m.additionals.iter().map(|r| (3u8, r))).collect()
+}
+
+fn uncompressed_size(m: &MMessage) -> usize {
+    w::encode_message(m, Compress::None, false).bytes.len()
+}
+
+/// compare a packet emitted by hickory with the model, RR by RR, using only the harness's splitter
+fn packet_matches_model(packet: &[u8], m: &MMessage) -> Result<(usize, usize), Fail> {
+    let sp = match w::split(packet) {
+        Ok(s) => s,
+        Err(e) => return Err(Fail::new("emitted-packet-malformed", format!("the harness's splitter cannot cut the emitted packet: {e}"))),
+    };
+    if sp.end != packet.len() {
+        return Err(Fail::new("emitted-packet-trailing-octets", format!("{} octets after the last record", packet.len() - sp.end)));
+    }
+    // header
+    let f = sp.flags;
+    let exp_flags = {
+        let mut x = 0u16;
+        if m.qr {
+            x |= 0x8000;
+        }
+        x |= ((m.opcode & 0xf) as u16) << 11;
+        for (b, v) in [(0x0400, m.aa), (0x0200, m.tc), (0x0100, m.rd), (0x0080, m.ra), (0x0020, m.ad), (0x0010, m.cd)] {
+            if v {
+                x |= b;
+            }
+        }
+        x | (m.rcode & 0xf)
+    };
+    if sp.id != m.id || f != exp_flags {
+        return Err(Fail::new("emitted-header-wrong", format!("id {:#06x} flags {:#06x}, model id {:#06x} flags {:#06x}", sp.id, f, m.id, exp_flags)));
+    }
+    if sp.questions.len() != m.questions.len() {
+        return Err(Fail::new("emitted-question-count", format!("{} vs {}", sp.questions.len(), m.questions.len())));
+    }
+    for (i, (q, mq)) in sp.questions.iter().zip(&m.questions).enumerate() {
+        if q.0 != mq.name || q.1 != mq.qtype || q.2 != mq.qclass {
+            return Err(Fail::new("emitted-question-wrong", format!("question {i}: {:?} vs model {:?}", q, mq)));
+        }
+    }
+    let plain: Vec<&w::RawRr> = sp.records.iter().filter(|r| r.rtype != w::T_OPT && r.rtype != w::T_TSIG).collect();
+    let mr = model_rrs(m);
+    if plain.len() != mr.len() {
+        return Err(Fail::new("emitted-record-count", format!("{} records emitted, model has {}", plain.len(), mr.len())));
+    }
+    let mut pointers = 0usize;
+    for (i, (rr, (sec, r))) in plain.iter().zip(mr.iter()).enumerate() {
+        if rr.section != *sec {
+            return Err(Fail::new("emitted-record-section", format!("record {i} in section {} vs model {}", rr.section, sec)));
+        }
+        if rr.owner != r.owner {
+            return Err(Fail::new(
+                "emitted-owner-wrong",
+                format!("record {i}: owner {} vs model {}", crate::refm::canon::show(&rr.owner), crate::refm::canon::show(&r.owner)),
+            ));
+        }
+        if rr.rtype != r.data.rtype() || rr.class != r.class || rr.ttl != r.ttl {
+            return Err(Fail::new(
+                "emitted-fixed-fields-wrong",
+                format!("record {i}: type/class/ttl {}/{}/{} vs model {}/{}/{}", rr.rtype, rr.class, rr.ttl, r.data.rtype(), r.class, r.ttl),
+            ));
+        }
+        let exp = w::rdata_bytes(&r.data);
+        let raw = &packet[rr.rdata_start..rr.rdata_end];
+        if w::compressible(rr.rtype) {
+            let got = w::decompress_rdata(packet, rr).map_err(|e| Fail::new("emitted-rdata-malformed", format!("record {i}: {e}")))?;
+            if got != exp {
+                return Err(Fail::new(
+                    "emitted-rdata-wrong",
+                    format!("record {i} ({}): {} vs model {}", r.data.variant(), crate::core::hexser::to_hex(&got), crate::core::hexser::to_hex(&exp)),
+                ));
+            }
+            if raw.len() < exp.len() {
+                pointers += 1;
+            }
+        } else if raw != exp.as_slice() {
+            return Err(Fail::new(
+                "noncompressible-rdata-not-preserved",
+                format!("record {i} ({}): {} vs model {}", r.data.variant(), crate::core::hexser::to_hex(raw), crate::core::hexser::to_hex(&exp)),
+            ));
+        }
+        // owner compression
+        let owner_wire = w::read_name(packet, rr.start).map(|(_, after)| after - rr.start).unwrap_or(0);
+        if owner_wire < crate::refm::canon::wire_len(&r.owner) {
+            pointers += 1;
+        }
+    }
+    // OPT: fixed fields from the model (RFC 6891 §6.1.2/6.1.3); options are covered by deep equality
+    let opts: Vec<&w::RawRr> = sp.records.iter().filter(|r| r.rtype == w::T_OPT).collect();
+    match (&m.edns, opts.as_slice()) {
+        (None, []) => {}
+        (Some(e), [o]) => {
+            let exp_ttl = w::edns_ttl(e, m.rcode);
+            if !o.owner.is_empty() || o.class != e.payload.max(512) || o.ttl != exp_ttl || o.section != 3 {
+                return Err(Fail::new(
+                    "emitted-opt-wrong",
+                    format!("OPT owner {:?} class {} ttl {:#010x}; model payload {} ttl {:#010x}", o.owner, o.class, o.ttl, e.payload, exp_ttl),
+                ));
+            }
+            let mut got = Vec::new();
+            let mut p = o.rdata_start;
+            while p + 4 <= o.rdata_end {
+                let c = u16::from_be_bytes([packet[p], packet[p + 1]]);
+                let l = u16::from_be_bytes([packet[p + 2], packet[p + 3]]) as usize;
+                got.push((c, packet[p + 4..(p + 4 + l).min(o.rdata_end)].to_vec()));
+                p += 4 + l;
+            }
+            let mut exp = e.options.clone();
+            // DAU (code 5, RFC 6975) is a set of algorithm numbers: order inside the option is free
+            for o in exp.iter_mut().chain(got.iter_mut()) {
+                if o.0 == 5 {
+                    o.1.sort();
+                }
+            }
+            exp.sort();
+            got.sort();
+            if got != exp {
+                return Err(Fail::new("emitted-opt-options-wrong", format!("options {:?} vs model {:?}", got, exp)));
+            }
+        }
+        (a, b) => return Err(Fail::new("emitted-opt-count", format!("model edns {} but {} OPT records emitted", a.is_some(), b.len()))),
+    }
+    let tsigs: Vec<&w::RawRr> = sp.records.iter().filter(|r| r.rtype == w::T_TSIG).collect();
+    match (&m.tsig, tsigs.as_slice()) {
+        (None, []) => {}
+        (Some((k, t)), [s]) => {
+            let last = sp.records.last().map(|r| r.start) == Some(s.start);
+            if !last || s.owner != *k || s.class != 255 || s.ttl != 0 || packet[s.rdata_start..s.rdata_end] != w::rdata_bytes(t)[..] {
+                return Err(Fail::new("emitted-tsig-wrong", format!("TSIG record differs from the model (last={last})")));
+            }
+        }
+        (a, b) => return Err(Fail::new("emitted-tsig-count", format!("model tsig {} but {} TSIG records emitted", a.is_some(), b.len()))),
+    }
+    Ok((plain.len(), pointers))
+}
+
+fn classify(m: &MMessage, pointers: usize, packet_len: usize, rec: &mut Rec) {
+    let variants: BTreeSet<&'static str> = m.all_records().map(|r| r.data.variant()).collect();
+    for v in &variants {
+        rec.class(format!("variant={v}"));
+    }
+    rec.class(match pointers {
+        0 => "compressed-names=0",
+        1..=64 => "compressed-names=1..64",
+        65..=120 => "compressed-names=65..120",
+        _ => "compressed-names>120",
+    });
+    rec.class(match packet_len {
+        0..=512 => "size<=512",
+        513..=4096 => "size<=4096",
+        4097..=0x3fff => "size<=16383",
+        _ => "size>16383",
+    });
+    if m.edns.is_some() {
+        rec.class("edns");
+    }
+    if m.tsig.is_some() {
+        rec.class("tsig");
+    }
+    if m.rcode > 15 {
+        rec.class("extended-rcode");
+    }
+    let nt = m.record_count() >= 2 && (pointers > 0 || m.edns.is_some() || m.tsig.is_some() || m.rcode > 15 || variants.len() >= 2);
+    if nt {
+        rec.nontrivial();
+        if rec.wants_note() {
+            rec.note(format!(
+                "id={:#06x} op={} rcode={} q={} an={} au={} ad={} edns={} tsig={} variants={:?} packet={}B pointers={}",
+                m.id,
+                m.opcode,
+                m.rcode,
+                m.questions.len(),
+                m.answers.len(),
+                m.authorities.len(),
+                m.additionals.len(),
+                m.edns.is_some(),
+                m.tsig.is_some(),
+                variants,
+                packet_len,
+                pointers
+            ));
+        }
+    }
+}
+
+#[derive(Clone, Debug, Serialize, Deserialize)]
+struct WireCase {
+    m: MMessage,
+    mode: u8,
+}
+
+fn mode_of(x: u8) -> Compress {
+    match x % 3 {
+        0 => Compress::None,
+        1 => Compress::Standard,
+        _ => Compress::Everywhere,
+    }
+}
+
+#[derive(Clone, Debug, Serialize, Deserialize)]
+struct MutCase {
+    m: MMessage,
+    mode: u8,
+    muts: Vec<Mutation>,
+}
+
+/// offsets of embedded names inside RDATA of non-compressible, name-bearing types
+fn name_offset_in_rdata(packet: &[u8], rr: &w::RawRr) -> Option<usize> {
+    let s = rr.rdata_start;
+    Some(match rr.rtype {
+        w::T_SRV => s + 6,
+        w::T_RRSIG | w::T_SIG => s + 18,
+        w::T_NSEC | w::T_ANAME => s,
+        w::T_SVCB | w::T_HTTPS => s + 2,
+        w::T_NAPTR => {
+            let mut p = s + 4;
+            for _ in 0..3 {
+                p += 1 + *packet.get(p)? as usize;
+            }
+            p
+        }
+        _ => return None,
+    })
+}
 
 pub fn check() -> Option<Check> {
-    None
+    // ------------------------------------------------------------------------------------ (A)
+    let constructed = prop(
+        "constructed_roundtrip",
+        30_000,
+        1_500_000,
+        |_| msg::message(),
+        |m: &MMessage, rec: &mut Rec| -> CaseResult {
+            if uncompressed_size(m) > 65_535 {
+                rec.discard("over-64k");
+                return Ok(());
+            }
+            let built = match cu::build_message(m) {
+                Ok(b) => b,
+                Err(e) => {
+                    rec.discard(format!("not-assemblable:{}", short(&e)));
+                    return Ok(());
+                }
+            };
+            rec.count("records_by_constructor", built.by_constructor as u64);
+            rec.count("records_by_decode_fallback", built.by_decode as u64);
+            let bytes = match built.msg.to_vec() {
+                Ok(b) => b,
+                Err(e) => vfail!("valid-message-does-not-encode", "to_vec failed: {e}"),
+            };
+            let back = match Message::from_vec(&bytes) {
+                Ok(b) => b,
+                Err(e) => vfail!("encoded-message-does-not-decode", "from_vec(to_vec(m)) failed: {e}"),
+            };
+            if let Err(e) = cu::message_deep_eq(&built.msg, &back) {
+                vfail!("roundtrip-changed-message", "{e}");
+            }
+            let (_, pointers) = packet_matches_model(&bytes, m)?;
+            classify(m, pointers, bytes.len(), rec);
+            Ok(())
+        },
+    );
+
+    // large messages: many names (compression-candidate and compressed-name limits), > 0x3FFF offsets
+    let constructed_large = prop(
+        "constructed_roundtrip_large",
+        600,
+        30_000,
+        |_| prop_oneof![
+            2 => msg::message_with(msg::SizeClass::ManyNames, false),
+            2 => msg::message_large(),
+            3 => msg::message_with(msg::SizeClass::BigRdata, false),
+        ],
+        |m: &MMessage, rec: &mut Rec| -> CaseResult {
+            if uncompressed_size(m) > 65_535 {
+                rec.discard("over-64k");
+                return Ok(());
+            }
+            let built = match cu::build_message(m) {
+                Ok(b) => b,
+                Err(e) => {
+                    rec.discard(format!("not-assemblable:{}", short(&e)));
+                    return Ok(());
+                }
+            };
+            let bytes = match built.msg.to_vec() {
+                Ok(b) => b,
+                Err(e) => vfail!("valid-message-does-not-encode", "to_vec failed: {e}"),
+            };
+            let back = match Message::from_vec(&bytes) {
+                Ok(b) => b,
+                Err(e) => vfail!("encoded-message-does-not-decode", "from_vec(to_vec(m)) failed: {e}"),
+            };
+            if let Err(e) = cu::message_deep_eq(&built.msg, &back) {
+                vfail!("roundtrip-changed-message", "{e}");
+            }
+            let (_, pointers) = packet_matches_model(&bytes, m)?;
+            classify(m, pointers, bytes.len(), rec);
+            Ok(())
+        },
+    );
+
+    // ------------------------------------------------------------------------------------ (B)
+    let wire = prop(
+        "wire_roundtrip",
+        30_000,
+        1_500_000,
+        |_| (msg::message(), 0u8..3).prop_map(|(m, mode)| WireCase { m, mode }),
+        |c: &WireCase, rec: &mut Rec| -> CaseResult {
+            let enc = w::encode_message(&c.m, mode_of(c.mode), false);
+            if enc.bytes.len() > 65_535 || uncompressed_size(&c.m) > 65_535 {
+                rec.discard("over-64k");
+                return Ok(());
+            }
+            let m1 = match Message::from_vec(&enc.bytes) {
+                Ok(m) => m,
+                Err(e) => {
+                    // a valid (by the RFCs) packet the decoder refuses: not a round-trip statement; counted
+                    rec.discard(format!("decoder-rejected:{}", short(&e.to_string())));
+                    return Ok(());
+                }
+            };
+            let b2 = match m1.to_vec() {
+                Ok(b) => b,
+                Err(e) => vfail!("decoded-message-does-not-encode", "to_vec(from_vec(b)) failed: {e}"),
+            };
+            let m2 = match Message::from_vec(&b2) {
+                Ok(m) => m,
+                Err(e) => vfail!("reencoded-message-does-not-decode", "from_vec(to_vec(from_vec(b))) failed: {e}"),
+            };
+            if let Err(e) = cu::message_deep_eq(&m1, &m2) {
+                vfail!("roundtrip-changed-message", "{e}");
+            }
+            let (_, pointers) = packet_matches_model(&b2, &c.m)?;
+            rec.class(format!("input-compression={:?}", mode_of(c.mode)));
+            classify(&c.m, pointers, b2.len(), rec);
+            Ok(())
+        },
+    );
+
+    // ------------------------------------------------------------------------------------ (C)
+    let mutated = prop(
+        "mutated_roundtrip",
+        60_000,
+        3_000_000,
+        |_| {
+            (msg::message_with(msg::SizeClass::Small, false), 0u8..3, proptest::collection::vec(cu::mutation(), 1..3))
+                .prop_map(|(m, mode, muts)| MutCase { m, mode, muts })
+        },
+        |c: &MutCase, rec: &mut Rec| -> CaseResult {
+            let mut b0 = w::encode_message(&c.m, mode_of(c.mode), false).bytes;
+            for mu in &c.muts {
+                cu::apply_mutation(&mut b0, mu);
+            }
+            let m1 = match Message::from_vec(&b0) {
+                Ok(m) => m,
+                Err(_) => {
+                    rec.class("decoder-rejected");
+                    return Ok(());
+                }
+            };
+            rec.class("decoder-accepted");
+            let b2 = match m1.to_vec() {
+                Ok(b) => b,
+                Err(e) => vfail!("decoded-message-does-not-encode", "to_vec(from_vec(b)) failed: {e}"),
+            };
+            let m2 = match Message::from_vec(&b2) {
+                Ok(m) => m,
+                Err(e) => vfail!("reencoded-message-does-not-decode", "from_vec(to_vec(from_vec(b))) failed: {e}"),
+            };
+            if let Err(e) = cu::message_deep_eq(&m1, &m2) {
+                vfail!("roundtrip-changed-message", "{e}");
+            }
+            // RDATA preservation, RR by RR, original packet vs re-encoded packet
+            let (Ok(s0), Ok(s2)) = (w::split(&b0), w::split(&b2)) else {
+                rec.class("splitter-disagrees-with-decoder");
+                return Ok(());
+            };
+            let keep = |r: &&w::RawRr| r.rtype != w::T_OPT && r.rtype != w::T_TSIG;
+            let r0: Vec<&w::RawRr> = s0.records.iter().filter(keep).collect();
+            let r2: Vec<&w::RawRr> = s2.records.iter().filter(keep).collect();
+            vensure!(r0.len() == r2.len(), "reencoded-record-count", "{} records in, {} out", r0.len(), r2.len());
+            let mut compared = 0;
+            for (i, (a, b)) in r0.iter().zip(r2.iter()).enumerate() {
+                vensure!(
+                    a.owner == b.owner && a.rtype == b.rtype && a.class == b.class && a.ttl == b.ttl,
+                    "reencoded-record-fields-changed",
+                    "record {i}: {:?}/{}/{}/{} -> {:?}/{}/{}/{}",
+                    a.owner,
+                    a.rtype,
+                    a.class,
+                    a.ttl,
+                    b.owner,
+                    b.rtype,
+                    b.class,
+                    b.ttl
+                );
+                let (x, y) = (&b0[a.rdata_start..a.rdata_end], &b2[b.rdata_start..b.rdata_end]);
+                if w::compressible(a.rtype) {
+                    if let (Ok(dx), Ok(dy)) = (w::decompress_rdata(&b0, a), w::decompress_rdata(&b2, b)) {
+                        vensure!(dx == dy, "compressible-rdata-changed", "record {i} type {}: {} -> {}", a.rtype, crate::core::hexser::to_hex(&dx), crate::core::hexser::to_hex(&dy));
+                        compared += 1;
+                    }
+                } else {
+                    // a non-compressible type that *arrived* with a pointer in an embedded name is compared
+                    // after decompression by deep equality only (documented normalisation)
+                    let had_pointer = name_offset_in_rdata(&b0, a).is_some_and(|off| off < a.rdata_end && w::name_has_pointer(&b0, off, a.rdata_end));
+                    if had_pointer {
+                        rec.class("noncompressible-rdata-arrived-with-pointer");
+                        continue;
+                    }
+                    vensure!(
+                        x == y,
+                        "noncompressible-rdata-not-preserved",
+                        "record {i} type {}: {} -> {}",
+                        a.rtype,
+                        crate::core::hexser::to_hex(x),
+                        crate::core::hexser::to_hex(y)
+                    );
+                    compared += 1;
+                }
+            }
+            rec.count("rdata_compared", compared);
+            if compared >= 1 {
+                rec.nontrivial();
+                if rec.wants_note() {
+                    rec.note(format!("{} records, mutations {:?}, accepted; {} RDATA compared", r0.len(), c.muts, compared));
+                }
+            }
+            Ok(())
+        },
+    );
+
+    // ------------------------------------------------------------------------------------ single records
+    let record_rt = prop(
+        "record_roundtrip",
+        60_000,
+        3_000_000,
+        |_| msg::record(),
+        |r: &MRecord, rec: &mut Rec| -> CaseResult {
+            use hickory_proto::rr::Record;
+            use hickory_proto::serialize::binary::{BinDecodable, BinDecoder, BinEncodable};
+            let Some(hr) = crate::gen::to_hickory::record(r) else {
+                rec.discard("no-constructor-path");
+                return Ok(());
+            };
+            let bytes = match hr.to_bytes() {
+                Ok(b) => b,
+                Err(e) => vfail!("valid-record-does-not-encode", "{}: {e}", r.data.variant()),
+            };
+            let mut dec = BinDecoder::new(&bytes);
+            let back = match Record::read(&mut dec) {
+                Ok(b) => b,
+                Err(e) => vfail!("encoded-record-does-not-decode", "{}: {e}", r.data.variant()),
+            };
+            vensure!(dec.is_empty(), "record-decode-left-octets", "{} octets left", dec.len());
+            if let Err(e) = cu::record_deep_eq("record", &hr, &back) {
+                vfail!("roundtrip-changed-record", "{e}");
+            }
+            // against the model's octets
+            let mut e = w::Enc::new();
+            w::encode_record(&mut e, &r.owner, r.data.rtype(), r.class, r.ttl, &r.data, Compress::None);
+            let sp_self = {
+                // a lone record may still compress an RDATA name against its own owner
+                let mut pkt = vec![0u8; 12];
+                pkt[7] = 1;
+                pkt.extend_from_slice(&bytes);
+                pkt
+            };
+            let _ = sp_self;
+            let exp_rdata = w::rdata_bytes(&r.data);
+            if !w::compressible(r.data.rtype()) {
+                vensure!(
+                    bytes.ends_with(&exp_rdata),
+                    "noncompressible-rdata-not-preserved",
+                    "{}: emitted {} does not end with the model RDATA {}",
+                    r.data.variant(),
+                    crate::core::hexser::to_hex(&bytes),
+                    crate::core::hexser::to_hex(&exp_rdata)
+                );
+            }
+            rec.class(format!("variant={}", r.data.variant()));
+            if !matches!(r.data, MRData::A(_) | MRData::Aaaa(_)) {
+                rec.nontrivial();
+                if rec.wants_note() {
+                    rec.note(format!("{} {} {} {:?}", crate::refm::canon::show(&r.owner), r.class, r.ttl, r.data));
+                }
+            }
+            Ok(())
+        },
+    );
+
+    Some(Check {
+        id: "C02",
+        level: "exploration",
+        rule: "model messages: every RDATA variant hickory has a codec for (A AAAA NS CNAME PTR ANAME MX SOA SRV TXT HINFO NAPTR CAA CERT CSYNC SSHFP TLSA SMIMEA OPENPGPKEY NULL Unknown SVCB HTTPS DNSKEY CDNSKEY KEY DS CDS NSEC NSEC3 NSEC3PARAM RRSIG SIG), names from a per-message pool with shared suffixes / case variants, 0..2 questions, 0..n records per section (size classes small / medium / 60-140 / 300-700 records), all flags, opcodes, rcodes incl. extended with EDNS, EDNS options, TSIG. Non-trivial = distinct message AND ≥2 records AND (a name was compressed in the encoding OR EDNS/TSIG present OR extended rcode OR ≥2 RDATA variants); for mutated inputs: accepted by the decoder AND ≥1 RDATA slice compared; for single records: any variant other than A/AAAA",
+        assumptions: vec![
+            "zero-octet RDATA is hickory's documented Update0 representation and is not generated as a valid record",
+            "messages whose uncompressed size exceeds 65,535 octets are out of domain (may legitimately truncate)",
+            "RDATA of a non-compressible type that arrived containing a compression pointer is compared after decompression (deep equality) only",
+            "one EDNS option per option code in the exact-round-trip domain",
+            "the header Z bit is not modelled by hickory and is generated as 0",
+        ],
+        subs: vec![constructed, constructed_large, wire, mutated, record_rt],
+    })
 }
